@@ -485,6 +485,9 @@ pub struct ReadBehaviour {
     /// formats do); never together with the length-prefixed binary variant
     #[serde(default)]
     pub hide_size_hints: bool,
+    /// (binary variant only) typed hints are enforced the way ciborium does
+    #[serde(default)]
+    pub strict_hints: bool,
     pub seed: u64,
 }
 
@@ -500,6 +503,7 @@ impl ReadBehaviour {
             f32_when_exact: false,
             binary: false,
             hide_size_hints: false,
+            strict_hints: false,
             seed: 0,
         }
     }
@@ -522,6 +526,7 @@ impl ReadBehaviour {
             f32_when_exact: r.chance(1, 4),
             binary: r.chance(1, 3),
             hide_size_hints: false,
+            strict_hints: false,
             seed: r.next(),
         }
         .with_hidden_hints()
@@ -532,6 +537,7 @@ impl ReadBehaviour {
     /// derived from the behaviour's own seed (keeps the generator's stream aligned)
     fn with_hidden_hints(mut self) -> Self {
         self.hide_size_hints = !self.binary && self.seed % 3 == 0;
+        self.strict_hints = self.binary && (self.seed / 3) % 2 == 0;
         self
     }
 }
@@ -950,9 +956,54 @@ impl<'de> de::Deserializer<'de> for TreeDe<'de> {
         }
     }
 
+    // Typed hints for compound values.  Most self-describing formats dispatch on
+    // what is stored; some binary ones (CBOR through ciborium) are STRICT: asked for
+    // a struct or map they accept only a map, asked for a sequence / tuple only an
+    // array.  A Serialize that writes a tuple where its Deserialize asks for a
+    // struct works with the former and fails with the latter.
+    fn deserialize_struct<V: Visitor<'de>>(
+        self,
+        _name: &'static str,
+        _fields: &'static [&'static str],
+        v: V,
+    ) -> Result<V::Value, StoreError> {
+        if self.strict() && matches!(self.t, Tree::Seq(_)) {
+            return Err(StoreError("invalid type: sequence, expected map".into()));
+        }
+        self.deserialize_any(v)
+    }
+    fn deserialize_map<V: Visitor<'de>>(self, v: V) -> Result<V::Value, StoreError> {
+        if self.strict() && matches!(self.t, Tree::Seq(_)) {
+            return Err(StoreError("invalid type: sequence, expected map".into()));
+        }
+        self.deserialize_any(v)
+    }
+    fn deserialize_seq<V: Visitor<'de>>(self, v: V) -> Result<V::Value, StoreError> {
+        if self.strict() && matches!(self.t, Tree::Map(_) | Tree::Struct(..)) {
+            return Err(StoreError("invalid type: map, expected sequence".into()));
+        }
+        self.deserialize_any(v)
+    }
+    fn deserialize_tuple<V: Visitor<'de>>(self, _len: usize, v: V) -> Result<V::Value, StoreError> {
+        self.deserialize_seq(v)
+    }
+    fn deserialize_tuple_struct<V: Visitor<'de>>(
+        self,
+        _name: &'static str,
+        _len: usize,
+        v: V,
+    ) -> Result<V::Value, StoreError> {
+        self.deserialize_seq(v)
+    }
+
     serde::forward_to_deserialize_any! {
         bool i8 i16 i32 i64 i128 u8 u16 u32 u64 u128 f32 f64 char str string
-        bytes byte_buf unit unit_struct seq tuple
-        tuple_struct map struct identifier ignored_any
+        bytes byte_buf unit unit_struct identifier ignored_any
+    }
+}
+
+impl<'de> TreeDe<'de> {
+    fn strict(&self) -> bool {
+        self.b.binary && (self.b.strict_hints || (self.b.seed / 3) % 2 == 0)
     }
 }
